@@ -419,6 +419,25 @@ impl PoolImpl {
     }
 }
 
+/// Read-only accessors for the out-of-tree verification harness.
+#[cfg(feature = "verif-hooks")]
+impl PoolImpl {
+    /// First slot whose state has not been pruned.
+    pub fn verif_first_unpruned_slot(&self) -> Slot {
+        self.first_unpruned_slot()
+    }
+
+    /// Slots for which per-slot state is currently retained.
+    pub fn verif_retained_slots(&self) -> Vec<Slot> {
+        self.slot_states.keys().copied().collect()
+    }
+
+    /// All certificates currently held for `slot`.
+    pub fn verif_certs(&self, slot: Slot) -> Vec<Cert> {
+        self.get_certs(slot..=slot)
+    }
+}
+
 #[async_trait]
 impl Pool for PoolImpl {
     /// Adds a new certificate to the pool.
